@@ -13,6 +13,12 @@ Arguments N.eqb : simpl never.
 
 (** ** soundness of the monitor: in order, exactly once *)
 
+Lemma ps_deliver_w p x d : w_ab (ps_deliver p x d) = w_ab p /\ w_ba (ps_deliver p x d) = w_ba p.
+Proof. unfold ps_deliver. destruct x, d; split; reflexivity. Qed.
+
+Lemma ps_emit_w p x b : w_ab (ps_emit p x b) = w_ab p /\ w_ba (ps_emit p x b) = w_ba p.
+Proof. unfold ps_emit. destruct x; split; reflexivity. Qed.
+
 Lemma pmon_run_prefix ops : forall p cab cba rs,
   pmon_run p cab cba ops rs = true ->
   (exists rest, w_ab p ++ submitted SA ops rs = fetched SB ops rs ++ rest) /\
@@ -36,10 +42,12 @@ Proof.
     + (* submit, refused *)
       destruct ((blen d =? 0) || (MAX_TX <? blen d)); inversion Es; subst. eauto.
     + (* poll *)
-      destruct (is_data_seg b); inversion Es; subst; destruct x; cbn [w_ab w_ba] in *; eauto.
+      inversion Es; subst. destruct b as [|b0 bl]; [eauto|].
+      destruct (ps_emit_w p x (b0 :: bl)) as (E1 & E2). rewrite E1 in H1. rewrite E2 in H2. eauto.
     + (* deliver *)
-      match type of Es with (if ?c then _ else _) = _ => destruct c end;
-        inversion Es; subst; destruct x; cbn [w_ab w_ba] in *; eauto.
+      inversion Es; subst.
+      match type of H1 with context[ps_deliver p x ?d] => destruct (ps_deliver_w p x d) as (E1 & E2) end.
+      rewrite E1 in H1. rewrite E2 in H2. eauto.
     + inversion Es; subst. eauto.
     + (* fetch *)
       destruct x; cbn [side_eqb].
@@ -55,10 +63,14 @@ Proof.
 Qed.
 
 Lemma mon_pair_in_order ops rs :
-  mon_pair ops rs = true ->
+  mon_pair ops rs = true \/ mon_pair_est ops rs = true ->
   (exists rest, submitted SA ops rs = fetched SB ops rs ++ rest) /\
   (exists rest, submitted SB ops rs = fetched SA ops rs ++ rest).
-Proof. intro H. apply (pmon_run_prefix ops ps_init [] [] rs H). Qed.
+Proof.
+  intros [H|H].
+  - apply (pmon_run_prefix ops ps_init [] [] rs H).
+  - apply (pmon_run_prefix ops ps_established [] [] rs H).
+Qed.
 
 Lemma pmon_run_answers ops : forall p cab cba rs,
   pmon_run p cab cba ops rs = true ->
@@ -90,7 +102,7 @@ Lemma handshake_req_valid s g a h p s' :
 Proof.
   intro H. pose proof (rx_handshake_req_cases s g a h p) as Hc. rewrite H in Hc.
   destruct Hc as (ver & m & w & -> & Hm & Hw & Hp).
-  unfold setup. cbn [mtu send swin wsize]. unfold RX_CAP. repeat split; lia.
+  unfold setup_state. cbn [mtu send swin wsize]. unfold RX_CAP. repeat split; lia.
 Qed.
 
 (** an initiator only accepts a usable segment size and window *)
@@ -100,5 +112,5 @@ Lemma handshake_resp_valid s a h p s' :
 Proof.
   intros Hp H. pose proof (rx_handshake_resp_cases s a h p Hp) as Hc. rewrite H in Hc.
   destruct Hc as (ver & m & w & -> & Hm & Hw).
-  unfold setup. cbn [mtu send swin]. lia.
+  unfold setup_state. cbn [mtu send swin]. lia.
 Qed.
